@@ -5,8 +5,8 @@ import SR.Util.Rewrite
 Model commands carry the implementation's result and answer `ok` when the model's result is the same value
 (hash-table collections compared as sets), otherwise they print the model's result — so the cases file needs
 no canonical printing of hash tables.  Oracle commands: `o-plan` (the plan is THE stable sorting permutation,
-checked declaratively), `o-orbit` (brute force over all n! permutations: some single permutation explains
-the representative). -/
+checked declaratively), `o-orbit` (brute force over all n! permutations: some single permutation, applied to
+everything including ids inside timer values, explains the representative). -/
 namespace SR.Drv.C10
 open SR SR.Hash SR.RW
 
@@ -82,19 +82,23 @@ def handle : Drv.Handler
       pure (match model with
         | some x => if x.eqB (St.ofVal rv) then "ok" else stStr x
         | none => "panic")
-  -- oracle: orbit membership of the implementation's representative, by brute force over all permutations
+  -- oracle: orbit membership of the implementation's representative, by brute force over all permutations.
+  -- Full strength: ids inside timer values are renamed too (`applyPerm true`). A result that is the image only
+  -- when timer values are left alone is the known divergence F12 and is reported with its own token.
   | "o-orbit", [sty, st, res] => do
     let (s, m, t, r, h) ← stateTys sty
     let v ← decodeVal (Ty.state s m t r h) st
     let x := St.ofVal v
-    let images := (perms x.actors.length).map fun π => applyPerm false π x
+    let πs := perms x.actors.length
     match res with
     | .atom "panic" =>
-      pure (if images.all Option.isNone then "ok" else "panic-although-a-permutation-image-exists")
+      pure (if πs.all (fun π => (applyPerm false π x).isNone) then "ok" else "panic-although-a-permutation-image-exists")
     | e => do
       let rv ← decodeVal (Ty.state s m t r h) e
       let y := St.ofVal rv
-      pure (if images.any (fun o => match o with | some z => z.eqB y | none => false) then "ok"
+      let inOrbit (b : Bool) := πs.any fun π => match applyPerm b π x with | some z => z.eqB y | none => false
+      pure (if inOrbit true then "ok"
+        else if inOrbit false then "timer-ids-not-rewritten:the-result-is-a-permutation-image-only-if-ids-inside-timer-values-are-left-alone"
         else "representative-not-in-the-orbit")
   | _, _ => none
 
